@@ -367,7 +367,7 @@ def schedules(ctx):
                     for kind in ("hard", "soft"):
                         scs.append(dict(n=n, cfg=cfg_of(n, (k + len(stage)) % 3 == 0), workers=(k * 7 + n) % 4 if stage == "pre" else 0,
                                         faults=[F(kind, k, stage), None], corrupt=(k + n) % 2 == 0))
-    nrand = ctx.scale(6, 120)
+    nrand = ctx.scale(14, 120)
     seen = {common.canon(s) for s in scs}
     tries = 0
     while nrand > 0 and tries < 10000:
@@ -455,7 +455,7 @@ def check_schedule(ctx, sc, res, ref, mout):
         if ever_saved:
             for u in ever_saved:
                 if isinstance(u, int) and IDS[u] not in man and u != ever_saved[-1]:
-                    ctx.violation(at, "listed", dict(saved=ever_saved, manifest=man),
+                    ctx.violation(at, "listed", dict(saved=list(ever_saved), manifest=list(man)),
                                   "every utterance whose save completed, except possibly the last one, is listed in the manifest on disk",
                                   tags=tg("complete_but_inflight", kind=f["kind"] if f else "none"))
                     break
